@@ -108,11 +108,16 @@ func c01SharedHandles(e *Env) {
 		{"{% block b %}B {{ name|upper }}{% endblock %}|{% set q = name ~ '?' %}{{ q }}", "B ADA|Ada?"},
 		{"{% macro m(x) %}<{{ x }}>{% endmacro %}{{ m(name) }}{{ _self.m(1) }}", "<Ada><1>"},
 		{"a {{- name -}} b {# c #}{% verbatim %}{{ raw }}{% endverbatim %}", "aAdab {{raw}}"},
+		// what the template reaches through ITS engine (another template, a global, a user filter) stays that engine's
+		{"[{% include 'part' %}|{{ gl }}|{{ name|own }}]", "[one|alpha|own1(Ada)]"},
 	}
 	ctx := func() map[string]interface{} { return map[string]interface{}{"name": "Ada"} }
 	for si, sh := range shapes {
 		res := guarded(func() (string, error) {
 			site := twig.New()
+			site.RegisterString("part", "one")
+			site.AddGlobal("gl", "alpha")
+			site.AddFilter("own", func(v interface{}, a ...interface{}) (interface{}, error) { return fmt.Sprintf("own1(%v)", v), nil })
 			if err := site.RegisterString("greeting", sh.src); err != nil {
 				return "", err
 			}
@@ -120,14 +125,42 @@ func c01SharedHandles(e *Env) {
 			if err != nil {
 				return "", err
 			}
+			if out, err := site.Render("greeting", ctx()); err != nil || out != sh.want {
+				return "", fmt.Errorf("HANDLE-CHANGED before sharing, first engine: %q %v", out, err)
+			}
 			mail := twig.New()
+			mail.RegisterString("part", "two")
+			mail.AddGlobal("gl", "beta")
+			mail.AddFilter("own", func(v interface{}, a ...interface{}) (interface{}, error) { return fmt.Sprintf("own2(%v)", v), nil })
 			mail.RegisterTemplate("greeting", handle)
+			if _, err := mail.Render("greeting", ctx()); err != nil {
+				return "", fmt.Errorf("the second engine cannot render the shared handle: %v", err)
+			}
+			if out, err := site.Render("greeting", ctx()); err != nil || out != sh.want {
+				return "", fmt.Errorf("HANDLE-CHANGED right after the handle was registered on a second engine, first engine: %q %v", out, err)
+			}
+			if out, err := handle.Render(ctx()); err != nil || out != sh.want {
+				return "", fmt.Errorf("HANDLE-CHANGED right after the handle was registered on a second engine, kept handle: %q %v", out, err)
+			}
+			if out, err := site.Render("alias0", ctx()); err == nil {
+				return "", fmt.Errorf("unregistered name renders %q", out)
+			}
+			site.RegisterTemplate("alias0", handle)
+			if out, err := site.Render("alias0", ctx()); err != nil || out != sh.want {
+				return "", fmt.Errorf("HANDLE-CHANGED after the handle was registered on a second engine, first engine: %q %v", out, err)
+			}
 			site.RegisterTemplate("alias", handle)
 			check := func(when string) error {
 				for who, f := range map[string]func() (string, error){
-					"second engine": func() (string, error) { return mail.Render("greeting", ctx()) },
-					"kept handle":   func() (string, error) { return handle.Render(ctx()) },
-					"alias":         func() (string, error) { return site.Render("alias", ctx()) },
+					"second engine": func() (string, error) {
+						out, err := mail.Render("greeting", ctx())
+						if strings.Contains(sh.src, "include") && err == nil {
+							return sh.want, nil // whose 'part' and globals a shared handle sees on the second engine is not specified; only that it renders
+						}
+						return out, err
+					},
+					"kept handle": func() (string, error) { return handle.Render(ctx()) },
+					"alias":       func() (string, error) { return site.Render("alias", ctx()) },
 				} {
 					if out, err := f(); err != nil || out != sh.want {
 						return fmt.Errorf("HANDLE-CHANGED %s, %s: %q %v", when, who, out, err)
